@@ -616,6 +616,59 @@ impl Space for LeapMonthReceivers {
     }
 }
 
+/// Receivers inside every era of every calendar: the merge takes era and era year from the receiver whenever the
+/// record names no year, so each era of the tables has to come back as itself.
+struct EraReceivers;
+const ERA_RECEIVER_DAYS: [(i32, u8, u8); 16] = [(-600, 6, 15), (-1, 6, 15), (1, 6, 15), (200, 3, 10), (300, 6, 15), (700, 6, 15), (1600, 6, 15), (1870, 6, 15), (1900, 6, 15), (1911, 6, 15), (1913, 6, 15), (1918, 11, 11), (1950, 6, 15), (2000, 6, 15), (2019, 4, 30), (2024, 3, 15)];
+impl Space for EraReceivers {
+    fn name(&self) -> String {
+        "c17.era_receivers".into()
+    }
+    fn len(&self) -> u64 {
+        (crate::checks::c16::CALENDARS.len() * ERA_RECEIVER_DAYS.len()) as u64
+    }
+    fn block(&self) -> u64 {
+        2
+    }
+    fn eval(&self, i: u64, out: &mut Out) {
+        let (y, m, d) = ERA_RECEIVER_DAYS[i as usize % ERA_RECEIVER_DAYS.len()];
+        let (cal_id, _) = crate::checks::c16::CALENDARS[i as usize / ERA_RECEIVER_DAYS.len()];
+        let cal = Calendar::from_str(cal_id).expect("calendar");
+        let Oc::Ok(recv) = call(|| PlainDate::try_new(y, m, d, Calendar::default()).and_then(|p| p.with_calendar(cal.clone()))) else { return };
+        let Oc::Ok((ry, rm, rcode, rd, rera, rey)) = call_inf(|| (recv.year(), recv.month(), recv.month_code(), recv.day(), recv.era().map(|e| e.as_str().to_string()), recv.era_year())) else { return };
+        if rd == 0 || rd > 28 {
+            out.unjudged += 1; // ICU4X day-0 finding of C16 / days that a change of day could clamp
+            return;
+        }
+        out.nontrivial += 1;
+        if rera.is_some() {
+            out.count("receivers_with_an_era", 1);
+        }
+        let fields = |p: &PlainDate| (p.year(), p.month_code().as_str().to_string(), p.day(), p.era().map(|e| e.as_str().to_string()), p.era_year());
+        for (ovn, ov) in [("constrain", Some(ArithmeticOverflow::Constrain)), ("reject", Some(ArithmeticOverflow::Reject))] {
+            let base = |what: &str| vec![("calendar", cal_id.to_string()), ("receiver_iso", format!("{y}-{m}-{d}")), ("receiver", format!("{ry}/{}/{rd} era {rera:?} {rey:?}", rcode.as_str())), ("overflow", ovn.to_string()), ("with", what.to_string())];
+            let want_day = if rd == 12 { 13 } else { 12 };
+            let got = call(|| recv.with(PartialDate::new().with_day(Some(want_day)), ov).map(|r| fields(&r)));
+            out.lockstep("with({day}) keeps year, era, era year and month code", &Ok((ry, rcode.as_str().to_string(), want_day, rera.clone(), rey)), &got, |a, b| a == b, || base("another day"));
+            let got = call(|| recv.with(PartialDate::new().with_month_code(Some(rcode)), ov));
+            out.lockstep("with({monthCode: own}) is the identity", &Ok(()), &got, |_, b| *b == recv, || base("own month code"));
+            let got = call(|| recv.with(PartialDate::new().with_year(Some(ry)), ov));
+            out.lockstep("with({year: own}) is the identity", &Ok(()), &got, |_, b| *b == recv, || base("own year"));
+            if let (Some(e), Some(ey)) = (&rera, rey) {
+                let era = tinystr::TinyAsciiStr::<19>::try_from_str(e).expect("era text");
+                let got = call(|| recv.with(PartialDate::new().with_era(Some(era)).with_era_year(Some(ey)), ov));
+                out.lockstep("with({era, eraYear: own}) is the identity", &Ok(()), &got, |_, b| *b == recv, || base("own era and era year"));
+                let got = call(|| PlainDate::from_partial(PartialDate::new().with_era(Some(era)).with_era_year(Some(ey)).with_month_code(Some(rcode)).with_day(Some(rd)).with_calendar(cal.clone()), ov));
+                out.lockstep("from_partial(era, eraYear, monthCode, day) gives the receiver", &Ok(()), &got, |_, b| *b == recv, || base("from_partial by era"));
+            }
+            let _ = rm;
+        }
+    }
+    fn describe(&self) -> serde_json::Value {
+        json!({"calendars": crate::checks::c16::CALENDARS.len(), "receiver_days": ERA_RECEIVER_DAYS})
+    }
+}
+
 pub fn spaces(env: &Env) -> Vec<Box<dyn Space>> {
     let _ = env;
     vec![
@@ -627,6 +680,7 @@ pub fn spaces(env: &Env) -> Vec<Box<dyn Space>> {
         Box::new(Zoned),
         Box::new(CalendarWith),
         Box::new(LeapMonthReceivers),
+        Box::new(EraReceivers),
         Box::new(WithTime { recv: receivers() }),
         Box::new(Builders),
     ]
